@@ -20,8 +20,8 @@ func TestVerifC01(t *testing.T) {
 	}
 	st := &vwStats{}
 	note := "N=3 voters, Q=2, one channel; initial state: node 1 installed under authority (1,1,1) on empty logs; |down| <= N-Q; a path is cut (PruneAfter) at a transition that matches KF-C01-1"
-	res := vwRun(r, "replication-world/C01/deep", o, st, ev.Pick(r, 4, 5), ev.Pick(r, 1, 2), note)
-	res2 := vwRun(r, "replication-world/C01/faulty", o, st, ev.Pick(r, 3, 6), ev.Pick(r, 2, 1), note)
+	res := vwRun(r, "replication-world/C01/deep", o, st, ev.Pick(r, 4, 5), ev.Pick(r, 1, 1), note)
+	res2 := vwRun(r, "replication-world/C01/faulty", o, st, ev.Pick(r, 3, 4), ev.Pick(r, 2, 2), note)
 	res.States += res2.States
 	vwAssumptions(r)
 	vwCounters(r, st)
